@@ -78,7 +78,10 @@ def info(number):
     # split the number
     from stdnum import numdb
     info = dict(number=number)
-    mcc_info, mnc_info, msin_info = numdb.get('imsi').info(number)
+    parts = numdb.get('imsi').info(number)
+    # an unknown MNC leaves the rest of the number unsplit
+    mcc_info, mnc_info, msin_info = (
+        parts if len(parts) == 3 else (parts[0], ('', {}), parts[-1]))
     info['mcc'] = mcc_info[0]
     info.update(mcc_info[1])
     info['mnc'] = mnc_info[0]
